@@ -26,7 +26,9 @@ Tiny ==
       [kind |-> "ega", seg |-> 0, w |-> 16, h |-> 3, pageSize |-> 8, banks |-> 1, bankSize |-> 8, bpr |-> 2, bpp |-> 1, planes |-> 15],
       [kind |-> "tandy6", seg |-> 0, w |-> 16, h |-> 8, pageSize |-> 36, banks |-> 4, bankSize |-> 9, bpr |-> 4, bpp |-> 2, planes |-> 0] }
 
+\* (read plane and write mask only matter for the planar layout)
 Init == L \in Tiny /\ rel \in -2..76 /\ v \in {0, 27, 165, 255} /\ rp \in 0..3 /\ wm \in {1, 6, 15}
+        /\ (L.kind = "ega" \/ (rp = 0 /\ wm = 15))
 Next == UNCHANGED vars
 Spec == Init /\ [][Next]_vars
 
@@ -38,7 +40,7 @@ Mask == IF L.kind = "ega" THEN wm ELSE 0
 
 Inverse == Backs(L, NP, rel) => LET c == Coords(L, rel) IN Addr(L, c.page, c.y, c.x, c.sub) = rel
 \* (depends on the layout only: evaluated once per layout)
-Cover == (rel = 0 /\ v = 0 /\ rp = 0 /\ wm = 1) => \A p \in 0..(NP - 1), y \in 0..(L.h - 1), x \in 0..(L.w - 1), s \in Subs :
+Cover == (rel = 0 /\ v = 0 /\ rp = 0 /\ wm = 15) => \A p \in 0..(NP - 1), y \in 0..(L.h - 1), x \in 0..(L.w - 1), s \in Subs :
             LET a == Addr(L, p, y, x, s)
                 c == Coords(L, a)
             IN  Backs(L, NP, a) /\ c.page = p /\ c.y = y /\ c.x <= x /\ x < c.x + c.n /\ c.sub = s
